@@ -21,6 +21,7 @@ import (
 	"fmt"
 	"os"
 	"sort"
+	"strings"
 
 	"github.com/oasisprotocol/oasis-core/go/common/logging"
 
@@ -72,6 +73,8 @@ type runner struct {
 	seen map[string]bool // distinct non-trivial K cases
 }
 
+const findingGovWeights = "C10:fee-split-vote-and-next-propose-weights-zeroed-by-passed-proposal"
+
 const allFeatures = uint64(1<<numFeatures - 1)
 
 func main() {
@@ -83,6 +86,7 @@ func main() {
 	stream := flag.String("stream", "both", "main | precond | both")
 	replay := flag.String("replay", "", "replay one case description (JSON)")
 	verbose := flag.Bool("v", false, "")
+	flag.BoolVar(&mockFlag, "mock", false, "also generate DebugMockBackend histories (SetEpoch transactions, epoch jumps); off by default: they hit debug-only failures")
 	flag.Parse()
 	if *out == "" {
 		d, _ := os.MkdirTemp("", "nohalt-out-")
@@ -139,10 +143,19 @@ func main() {
 	for _, h := range hists {
 		res := runHistory(h, r, true)
 		r.account(h, res)
-		if res.viol != nil && *replay == "" {
+		if res.viol != nil && res.finding {
+			// regression of the defect fixed by /repo commit c9cfe37 (known_findings.json, status
+			// fixed): a plain violation, only classified by its key
+			res.viol.What = findingGovWeights + " (fixed defect is back: a passed change-parameters proposal with vote = next-propose weight = 0 halts the chain in disburseFeesVQ): " + res.viol.What
+		}
+		switch {
+		case res.viol != nil && *replay == "":
 			v := shrink(h, res.viol)
+			if res.finding && !strings.HasPrefix(v.What, findingGovWeights) {
+				v.What = findingGovWeights + " (fixed defect is back): " + v.What
+			}
 			r.sum.Violations = append(r.sum.Violations, v)
-		} else if res.viol != nil {
+		case res.viol != nil:
 			r.sum.Violations = append(r.sum.Violations, res.viol)
 		}
 	}
@@ -233,7 +246,7 @@ func shrink(h histDesc, v *violation) *violation {
 	return bv
 }
 
-var vflag bool
+var vflag, mockFlag bool
 
 func logf(format string, a ...any) {
 	if vflag {
